@@ -159,6 +159,16 @@ int main()
                 p.s.erase(a, b == XalanDOMString::npos ? std::u16string::npos : b);
             }
             else if (op == "eraseat" && t.size() == 4 && num(t[3], a)) { p.x->erase(p.x->begin() + a); p.s.erase(p.s.begin() + a); }
+            else if (op == "eraser" && t.size() == 5 && num(t[3], a) && num(t[4], b))
+            {
+                p.x->erase(p.x->begin() + a, p.x->begin() + b);
+                p.s.erase(p.s.begin() + a, p.s.begin() + b);
+            }
+            else if (op == "assignit" && t.size() == 6 && num(t[3], a) && a < ss.size() && a != id && num(t[4], b) && num(t[5], c))
+            {
+                p.x->assign(ss[a]->x->begin() + b, ss[a]->x->begin() + c);
+                p.s.assign(ss[a]->s.begin() + b, ss[a]->s.begin() + c);
+            }
             else if (op == "clear") { p.x->clear(); p.s.clear(); }
             else if (op == "resize" && t.size() == 5 && num(t[3], a) && num(t[4], b)) { p.x->resize(a, XalanDOMChar(b)); p.s.resize(a, char16_t(b)); }
             else if (op == "reserve" && t.size() == 4 && num(t[3], a)) { p.x->reserve(a); p.s.reserve(a); }
